@@ -34,9 +34,28 @@ def fallback_case(rng):
     return {"steps": steps, "env": {}}
 
 
+def entry_match_case(rng):
+    """the patch's document-level $match selects a PARENT document; inside the patch a list-entry $match finds no entry in
+    that parent.  That is an error of this patch - not a reason to go looking for other documents, although a document
+    OUTSIDE the parent layer would match both"""
+    kind = rng.choice(["A", "B"])
+    outside = {"kind": kind, "l": [{"n": 2, "v": "out"}], "tag": "outside"}
+    parent = {"kind": kind, "l": [{"n": 1, "v": "in"}], "tag": "parent"}
+    steps = [{"merge": {"id": "F0|doc0", "parents": [], "data": outside}}, {"merge": {"id": "G0|doc0", "parents": [], "data": parent}}]
+    want = rng.choice([2, 2, 1, 3])
+    patch = {"$match": {"kind": kind}, "l": [{"$match": {"n": want}, "v": "patched"}]}
+    if rng.random() < 0.3:
+        patch["l"][0] = {"$match": {"n": want}, "$value": {"n": want, "v": "replaced"}}
+    steps.append({"merge": {"id": "G1|doc0", "parents": ["G0|doc0"], "data": patch}})
+    steps += [{"docs": True}, {"outdocs": True}]
+    return {"steps": steps, "env": {}}
+
+
 def gen_case(rng):
     if rng.random() < 0.06:
         return fallback_case(rng)
+    if rng.random() < 0.04:
+        return entry_match_case(rng)
     nbase = rng.randint(1, 4)
     kinds = ["A", "B", "C"]
     steps = []
